@@ -56,8 +56,10 @@ ExtInstTok(i, imports) ==
 RECURSIVE TrackSeq(_, _, _)
 TrackSeq(types, is, j) == IF j > Len(is) THEN types ELSE TrackSeq(Track(types, is[j]), is, j + 1)
 SignedDec(w) == IF w[1] >= 32768 THEN ToString((w[1] - 65536) * 65536 + w[2]) ELSE ToString(w[1] * 65536 + w[2])
-ConstTok(i, types) ==
-  IF i.rt # <<>> /\ Known(types, i.rt[1]) /\ i.ops[1].k = "LiteralBit32" /\ types[i.rt[1]].c = "Int"
+\* (an id that several OpTypeInt / OpTypeFloat instructions declare has no single "declared type": any rendering)
+ConstTok(i, types, multi) ==
+  IF i.rt # <<>> /\ i.rt[1] \in multi THEN AnyTok
+  ELSE IF i.rt # <<>> /\ Known(types, i.rt[1]) /\ i.ops[1].k = "LiteralBit32" /\ types[i.rt[1]].c = "Int"
   THEN (IF types[i.rt[1]].sg THEN SignedDec(i.ops[1].w[1]) ELSE Dec(i.ops[1].w[1]))
   ELSE IF i.rt # <<>> /\ Known(types, i.rt[1]) THEN AnyTok                 \* floats, 64-bit: decided by the reader
   ELSE IF i.ops[1].k = "LiteralBit32" THEN Dec(i.ops[1].w[1]) ELSE AnyTok  \* undeclared type: the raw bit pattern
@@ -70,10 +72,14 @@ LineToksIn(i, imports) ==
   \o [j \in 1..Len(i.ops) |->
         IF i.op = 12 /\ j = 2 /\ Len(i.ops) >= 2 /\ i.ops[1].k = "IdRef" /\ i.ops[2].k = "LiteralExtInstInteger"
         THEN ExtInstTok(i, imports) ELSE OperandTok(i.ops[j], i.op)]
-LineToksTyped(i, imports, types, global) ==
+LineToksTyped(i, imports, types, global, multi) ==
   IF i.op = 43 /\ Len(i.ops) = 1 /\ global
-  THEN LET base == LineToksIn(i, imports) IN [base EXCEPT ![Len(base)] = ConstTok(i, types)]
+  THEN LET base == LineToksIn(i, imports) IN [base EXCEPT ![Len(base)] = ConstTok(i, types, multi)]
   ELSE LineToksIn(i, imports)
+\* ids declared as a scalar type by more than one instruction of the section
+MultiDeclared(decls) ==
+  LET scalar == { j \in 1..Len(decls) : decls[j].op \in {21, 22} /\ decls[j].rid # <<>> } IN
+  { decls[j].rid[1] : j \in { j \in scalar : \E k \in scalar : k # j /\ decls[k].rid = decls[j].rid } }
 
 LineToks(i) ==
   (IF i.rid # <<>> THEN <<IdTok(i.rid[1]), "=">> ELSE <<>>)
